@@ -211,6 +211,18 @@ def evaluate(case):
     except Exception as e:
         ev.add("failure_cases-unreadable", repr(e)[:300])
         return ev
+    if spec.get("int_labels"):
+        # integer column labels are digit strings in the case and in the reference: compare in that spelling (a label
+        # reported as anything else - e.g. the regex pattern of the column schema - stays what it is and will not match)
+        ev.labels.append("int-labels")
+        def _s(col):  # (the report's "column" column is float when it also holds the None of frame-level entries: 0 -> 0.0)
+            import numbers
+
+            if isinstance(col, numbers.Real) and not isinstance(col, bool) and float(col).is_integer():
+                return str(int(col))
+            return col
+
+        rep = Counter({(ctx, _s(col), cid, lab, val): k for (ctx, col, cid, lab, val), k in rep.items()})
     labels = labels_of(table)
     series = spec.get("kind") == "series"
     tcols = {c["name"]: c for c in table["columns"]}
@@ -494,6 +506,10 @@ from . import plx  # noqa: E402
 FAMILIES.append(
     Family("depths", eval_depths, strategy=strategy, n_quick=600, n_thorough=3000, shards_quick=3, shards_thorough=12,
            required_labels=["SCHEMA_ONLY:reject", "DATA_ONLY:reject", "DATA_ONLY:accept"]))
+
+FAMILIES.append(
+    Family("int_labels", evaluate, strategy=lambda: strategy().flatmap(gen.int_labelled), n_quick=500, n_thorough=3000,
+           shards_quick=2, shards_thorough=8, required_labels=["int-labels", "report-compared", "multi-reason"]))
 
 FAMILIES.append(
     Family("lazy_coerce", eval_lazy_coerce, strategy=strat_lazy_coerce, n_quick=500, n_thorough=3000, shards_quick=2,
